@@ -471,6 +471,15 @@ func (p *Packer) Unpack(r io.Reader, dst string) (err error) {
 	// is created, but where a link really leads also depends on the other
 	// links in the tree, so they are checked once more when all are in place.
 	linksExtracted := []string{}
+
+	// The checks below compare paths as text, which needs a destination in
+	// absolute, clean form ("." has no textual prefix in common with the
+	// paths joined to it).
+	if abs, err := filepath.Abs(dst); err == nil {
+		dst = abs
+	} else {
+		return fmt.Errorf("failed making path %q absolute: %w", dst, err)
+	}
 	defer func() {
 		// Do not leave such a link behind when extraction stops early.
 		if err != nil {
@@ -690,8 +699,11 @@ func (p *Packer) linkResolvesWithin(root, link string) bool {
 		return p.allowedSymlinkTarget(realRoot, path) || p.allowedSymlinkTarget(absRoot, path)
 	}
 
-	// cur is always a path free of symlinks; pending holds the components
-	// that remain to be applied to it.
+	// cur is always an absolute path free of symlinks; pending holds the
+	// components that remain to be applied to it.
+	if abs, err := filepath.Abs(link); err == nil {
+		link = abs
+	}
 	cur := realPath(filepath.Dir(link))
 	pending := strings.Split(target, string(filepath.Separator))
 	if filepath.IsAbs(target) {
